@@ -562,8 +562,12 @@ def ema_grouped(
         if alpha is not None:
             raise ValueError("only one of alpha or halflife should be provided")
 
-        halflife = _halflife_to_int(halflife)
-        alpha = 1 - np.exp(-np.log(2) / halflife)
+        if times is None:
+            if halflife <= 0:
+                raise ValueError("Halflife must be positive.")
+            alpha = 1 - np.exp(-np.log(2) / halflife)
+        else:
+            halflife = _halflife_to_int(halflife)
 
     nb_kwargs = dict(
         group_key=group_key_arr,
